@@ -69,6 +69,30 @@ def run(chk):
         p = repo.func(EM, f"EmcyProducer.{name}", "C16.R1")
         pf = ff_for(chk, p, "C16.R1")
         packs = find_calls(p.node, ".pack")
+        if not packs:
+            # delegated to a helper of the class: follow it one level
+            prod = repo.cls(EM, "EmcyProducer", "C16.R1")
+            deleg = [c for c in ast.walk(p.node) if isinstance(c, ast.Call) and isinstance(c.func, ast.Attribute) and dotted(c.func.value) == "self" and c.func.attr in prod.methods]
+            handled = False
+            for dc in deleg:
+                h = prod.methods[dc.func.attr]
+                hf = ff_for(chk, h, "C16.R1")
+                for c in find_calls(h.node, ".send_message"):
+                    pl = c.args[1] if len(c.args) > 1 else None
+                    if isinstance(pl, ast.Name) and hf.one_def(pl.id) is not None:
+                        pl = hf.one_def(pl.id)
+                    if isinstance(pl, ast.Attribute) and dotted(pl.value) == "self":
+                        handled = True
+                        chk.bad("R1", f"{EM}:EmcyProducer.{name} | payload is a fresh EMCY_STRUCT.pack(code, register, data)", h.loc(c),
+                                f"`{src(c)[:70]}` sends the instance buffer self.{pl.attr} that {h.name}() fills in place: bytes of an earlier, longer message survive "
+                                f"unless all eight bytes are rewritten, so the data is not zero-padded to five bytes")
+                    elif isinstance(pl, ast.Call) and dotted(pl.func) == "EMCY_STRUCT.pack":
+                        handled = True
+                        amap = dict(zip(h.params[1:], [pf.norm(a) for a in dc.args]))
+                        got = [amap.get(src(a), src(a)) for a in pl.args]
+                        chk.check(got == [first, "register", "data"], "R1", f"{EM}:EmcyProducer.{name} | pack", h.loc(pl), f"payload is EMCY_STRUCT.pack({', '.join(got)}) via {h.name}()")
+            if handled:
+                continue
         chk.floor("R1", len(packs), 1, f"pack in EmcyProducer.{name}")
         for c in packs:
             args = [pf.norm(a) for a in c.args]
